@@ -70,18 +70,50 @@ theorem Good_trans {nroot : Nat} {st0 s s' : PState} (h0 : Good T nroot st0 s) (
 theorem Good_len {nroot : Nat} {st0 s : PState} (h0 : Good T nroot st0 s) : s.latex.length = st0.latex.length := by
   rw [h0.2.1]
 
-/-- the local `arg k` of `callHandler`, bound to a continuation -/
+/-- the local `arg k` of `callHandler`, bound to a continuation: the index is in range, so the
+    `handler:args[k]` crash is unreachable -/
 theorem Post_argBind {β} (args : List (List Tok)) (k : Nat) (f : List Tok → M β) (st : PState)
-    (R : β → PState → Prop) (h : ∀ a ∈ args, Post (f a st) R) :
+    (R : β → PState → Prop) (hk : k < args.length)
+    (h : ∀ a ∈ args, args[k]? = some a → Post (f a st) R) :
     Post (((match args[k]? with
             | some a => pure a
             | none => M.crash "handler:args[k]" : M (List Tok)) >>= f) st) R := by
-  apply Post_bind _ _ _ (fun a s => s = st ∧ a ∈ args)
-  · cases hk : args[k]? with
-    | none => exact Post_crash _ _ _
-    | some a => exact Post_pure _ _ _ ⟨rfl, List.mem_of_getElem? hk⟩
-  · rintro a s ⟨rfl, ha⟩
-    exact h a ha
+  apply Post_bind _ _ _ (fun a s => s = st ∧ a ∈ args ∧ args[k]? = some a)
+  · rw [List.getElem?_eq_getElem hk]
+    exact Post_pure _ _ _ ⟨rfl, List.getElem_mem hk, rfl⟩
+  · rintro a s ⟨rfl, ha, he⟩
+    exact h a ha he
+
+/-- an index a handler uses is in range -/
+theorem arity_lt {h : Handler} {args : List (List Tok)} {k : Nat} (hh : HandlerArgs h args)
+    (hk : k < handlerArity h) : k < args.length :=
+  Nat.lt_of_lt_of_le hk hh.1
+
+/-- an argument a handler takes the first/last token of is not empty -/
+theorem needsA_ne_nil {h : Handler} {args : List (List Tok)} {k : Nat} {a : List Tok} (hh : HandlerArgs h args)
+    (hk : k ∈ handlerNeedsA h) (he : args[k]? = some a) : a ≠ [] := by
+  obtain ⟨a', h1, h2⟩ := hh.2 k hk
+  rw [he] at h1
+  cases h1
+  exact h2
+
+/-- `translate_lang` falls back to 'english', which `language_map` knows -/
+theorem translateLang_ne_none (hw : T.WFInv) (l : Str) : translateLang T l ≠ none := by
+  unfold translateLang
+  split
+  · simp
+  · have := hw.babel_english
+    cases hf : T.babelMap.find? (·.1 == "english".toList) with
+    | none => rw [hf] at this; cases this
+    | some e => simp
+
+/-- `h_cite` (biblatex) finds `args[1]`, `args[2]` -/
+theorem bibCite_ne_none (args : List (List Tok)) (pos : Nat) (h : 3 ≤ args.length) :
+    bibCite T args pos ≠ none := by
+  unfold bibCite
+  rw [List.getElem?_eq_getElem (show 1 < args.length by omega),
+    List.getElem?_eq_getElem (show 2 < args.length by omega)]
+  simp
 
 theorem Post_getBind {β} (f : PState → M β) (st : PState) (R : β → PState → Prop)
     (h : Post (f st st) R) : Post ((M.get >>= f) st) R := by
@@ -114,7 +146,7 @@ theorem mem_setMacro {ms : List MacroDef} {m x : MacroDef} (h : x ∈ setMacro m
 theorem G_setMacros {nroot : Nat} {s : PState} (hg : G T nroot s) (m : MacroDef) (hm : macroToksOk T m = true) :
     G T nroot { s with macros := setMacro s.macros m } := by
   refine { flows := hg.flows, macros := ?_, envs := hg.envs, gloss := hg.gloss, root := hg.root,
-           inFrame := hg.inFrame }
+           inFrame := hg.inFrame, items := hg.items, langs := hg.langs, rots := hg.rots }
   intro x hx
   rcases List.mem_append.mp hx with hx | hx
   · rcases mem_setMacro hx with hx | rfl
@@ -126,7 +158,7 @@ theorem G_setEnvs {nroot : Nat} {s : PState} (hg : G T nroot s) (m : MacroDef) (
     (he : envOk T m = true) :
     G T nroot { s with envs := setMacro s.envs m } := by
   refine { flows := hg.flows, macros := ?_, envs := ?_, gloss := hg.gloss, root := hg.root,
-           inFrame := hg.inFrame }
+           inFrame := hg.inFrame, items := hg.items, langs := hg.langs, rots := hg.rots }
   · intro x hx
     rcases List.mem_append.mp hx with hx | hx
     · exact hg.macros x (List.mem_append_left _ hx)
@@ -143,6 +175,24 @@ theorem BL_all_storedOk {n : Nat} {ts : List Tok} (h : BL T n ts) : ts.all (stor
   intro t ht
   exact BTok_storedOk T n t (h t ht)
 
+
+/-- `\\newcommand` checks every `#k` of the body against the declared number of arguments before it
+    defines the macro: the definition is consistent with its argument string -/
+theorem arityOk_newcommand (name : Str) (margs : Str) (a4 : List Tok) (defaults : List (List Tok)) (nargs : Nat)
+    (hlen : margs.length = nargs)
+    (hf : a4.find? (fun t => match argRef t with | some k => decide (k < 1) || decide (k > nargs) | none => false) = none) :
+    arityOk { name := name, args := margs, repl := a4, defaults := defaults } = true := by
+  simp only [arityOk, handlerArity, handlerNeedsA, List.append_nil, List.all_nil, Nat.zero_le, decide_true,
+    Bool.and_true, Bool.true_and, List.all_eq_true]
+  intro t ht
+  have := List.find?_eq_none.mp hf t ht
+  cases hr : argRef t with
+  | none => rfl
+  | some k =>
+    rw [hr] at this
+    simp at this
+    simp
+    omega
 
 /-! ### pure helper functions of the handlers -/
 
@@ -263,7 +313,7 @@ theorem G_setGloss {nroot : Nat} {s : PState} (hg : G T nroot s) (label : Str) (
     (he : ∀ kv ∈ e, ∀ ts, kv.2 = some ts → ∀ t ∈ ts, storedOk T t = true) :
     G T nroot { s with glossary := setGloss s.glossary label e } := by
   refine { flows := hg.flows, macros := hg.macros, envs := hg.envs, gloss := ?_, root := hg.root,
-           inFrame := hg.inFrame }
+           inFrame := hg.inFrame, items := hg.items, langs := hg.langs, rots := hg.rots }
   intro x hx
   simp only [setGloss] at hx
   split at hx
@@ -388,14 +438,14 @@ theorem handler_opaqueH (name : Str) :
     Post (callHandler T (fuel + 1) (.opaqueH name) buf mac args pos st)
       (fun r st' => Good T nroot st st' ∧ BL T st.latex.length r) := by
   simp only [callHandler]
-  exact Post_crash _ _ _
+  exact Post_crash _ _ _ (by simp [allowedCrash])
 
 include hg ha hp in
-theorem handler_theorem (title : Str) :
+theorem handler_theorem (title : Str) (hh : HandlerArgs (.theorem title) args) :
     Post (callHandler T (fuel + 1) (.theorem title) buf mac args pos st)
       (fun r st' => Good T nroot st st' ∧ BL T st.latex.length r) := by
   simp only [callHandler]
-  refine Post_argBind args 0 _ st _ (fun a0 h0 => ?_)
+  refine Post_argBind args 0 _ st _ (arity_lt hh (by simp [handlerArity])) (fun a0 h0 ea0 => ?_)
   have hA := ha a0 h0
   cases hl : a0.getLast? with
   | some l =>
@@ -408,11 +458,11 @@ theorem handler_theorem (title : Str) :
     simp [BL_cons, BL_nil, BTok_mkFix_text, BTok_mkFix_space, hp]
 
 include hw IH hg ha hp in
-theorem handler_phantom :
+theorem handler_phantom (hh : HandlerArgs .phantom args) :
     Post (callHandler T (fuel + 1) .phantom buf mac args pos st)
       (fun r st' => Good T nroot st st' ∧ BL T st.latex.length r) := by
   simp only [callHandler]
-  refine Post_argBind args 0 _ st _ (fun a h0 => ?_)
+  refine Post_argBind args 0 _ st _ (arity_lt hh (by decide)) (fun a h0 ea => ?_)
   refine Post_bind _ _ _ _ _ (text_step IH (Good_refl T nroot st hg) a (ha a h0)) (fun txt s hs => ?_)
   split
   · refine Post_pure _ _ _ ⟨hs, ?_⟩
@@ -420,11 +470,11 @@ theorem handler_phantom :
   · exact Post_pure _ _ _ ⟨hs, BL_nil T _⟩
 
 include IH hg ha hp in
-theorem handler_hspace :
+theorem handler_hspace (hh : HandlerArgs .hspace args) :
     Post (callHandler T (fuel + 1) .hspace buf mac args pos st)
       (fun r st' => Good T nroot st st' ∧ BL T st.latex.length r) := by
   simp only [callHandler]
-  refine Post_argBind args 1 _ st _ (fun a h0 => ?_)
+  refine Post_argBind args 1 _ st _ (arity_lt hh (by decide)) (fun a h0 ea => ?_)
   refine Post_bind _ _ _ _ _ (text_step IH (Good_refl T nroot st hg) a (ha a h0)) (fun txt s hs => ?_)
   split
   · exact Post_pure _ _ _ ⟨hs, BL_nil T _⟩
@@ -432,11 +482,11 @@ theorem handler_hspace :
     simp [BL_cons, BL_nil, BTok_mkTok1_space, hp]
 
 include hg ha hp in
-theorem handler_cite :
+theorem handler_cite (hh : HandlerArgs .cite args) :
     Post (callHandler T (fuel + 1) .cite buf mac args pos st)
       (fun r st' => Good T nroot st st' ∧ BL T st.latex.length r) := by
   simp only [callHandler]
-  refine Post_argBind args 0 _ st _ (fun a0 h0 => ?_)
+  refine Post_argBind args 0 _ st _ (arity_lt hh (by decide)) (fun a0 h0 ea0 => ?_)
   have hA := ha a0 h0
   cases hl : a0.getLast? with
   | some l =>
@@ -450,18 +500,18 @@ theorem handler_cite :
     simp [BL_cons, BL_nil, BTok_mkFix_text, BTok_mkAction, hp]
 
 include IH hg ha in
-theorem handler_heading :
+theorem handler_heading (hh : HandlerArgs .heading args) :
     Post (callHandler T (fuel + 1) .heading buf mac args pos st)
       (fun r st' => Good T nroot st st' ∧ BL T st.latex.length r) := by
   simp only [callHandler]
-  refine Post_argBind args 2 _ st _ (fun a h0 => ?_)
+  refine Post_argBind args 2 _ st _ (arity_lt hh (by decide)) (fun a h0 ea => ?_)
   have hA := ha a h0
   refine Post_bind _ _ _ _ _ (text_step IH (Good_refl T nroot st hg) a hA) (fun txt s hs => ?_)
   cases hc : (strip txt).getLast? with
   | none => exact Post_pure _ _ _ ⟨hs, hA⟩
   | some c =>
     cases hl : a.getLast? with
-    | none => exact Post_crash _ _ _
+    | none => exact absurd (List.getLast?_eq_none_iff.mp hl) (needsA_ne_nil hh (by simp [handlerNeedsA]) ea)
     | some l =>
       dsimp only
       have hlp := BL_last_pos T hA hl
@@ -470,48 +520,48 @@ theorem handler_heading :
         simp [BL_append, BL_cons, BL_nil, BTok_mkTok1_text, hlp, hA]
       · exact Post_pure _ _ _ ⟨hs, hA⟩
 
-include IH hg ha hp in
-theorem handler_foreignlanguage :
+include hw IH hg ha hp in
+theorem handler_foreignlanguage (hh : HandlerArgs .foreignlanguage args) :
     Post (callHandler T (fuel + 1) .foreignlanguage buf mac args pos st)
       (fun r st' => Good T nroot st st' ∧ BL T st.latex.length r) := by
   simp only [callHandler]
-  refine Post_argBind args 1 _ st _ (fun a1 h1 => ?_)
-  refine Post_argBind args 2 _ st _ (fun a2 h2 => ?_)
+  refine Post_argBind args 1 _ st _ (arity_lt hh (by decide)) (fun a1 h1 ea1 => ?_)
+  refine Post_argBind args 2 _ st _ (arity_lt hh (by decide)) (fun a2 h2 ea2 => ?_)
   have hA := ha a2 h2
   refine Post_bind _ _ _ _ _ (text_step IH (Good_refl T nroot st hg) a1 (ha a1 h1)) (fun l s hs => ?_)
   cases ht : translateLang T (strip l) with
-  | none => exact Post_crash _ _ _
+  | none => exact absurd ht (translateLang_ne_none T hw _)
   | some lt =>
     cases hl : a2.getLast? with
-    | none => exact Post_crash _ _ _
+    | none => exact absurd (List.getLast?_eq_none_iff.mp hl) (needsA_ne_nil hh (by simp [handlerNeedsA]) ea2)
     | some last =>
       dsimp only
       have hlp := BL_last_pos T hA hl
       refine Post_pure _ _ _ ⟨hs, ?_⟩
       simp [BL_append, BL_cons, BL_nil, BTok_mkLang, hp, hlp, hA]
 
-include IH hg ha hp in
-theorem handler_selectlanguage :
+include hw IH hg ha hp in
+theorem handler_selectlanguage (hh : HandlerArgs .selectlanguage args) :
     Post (callHandler T (fuel + 1) .selectlanguage buf mac args pos st)
       (fun r st' => Good T nroot st st' ∧ BL T st.latex.length r) := by
   simp only [callHandler]
-  refine Post_argBind args 0 _ st _ (fun a0 h0 => ?_)
+  refine Post_argBind args 0 _ st _ (arity_lt hh (by decide)) (fun a0 h0 ea0 => ?_)
   refine Post_bind _ _ _ _ _ (text_step IH (Good_refl T nroot st hg) a0 (ha a0 h0)) (fun l s hs => ?_)
   cases ht : translateLang T (strip l) with
-  | none => exact Post_crash _ _ _
+  | none => exact absurd ht (translateLang_ne_none T hw _)
   | some lt =>
     refine Post_pure _ _ _ ⟨hs, ?_⟩
     simp [BL_cons, BL_nil, BTok_mkLang, hp]
 
-include IH hg ha hp in
-theorem handler_beginOtherlang :
+include hw IH hg ha hp in
+theorem handler_beginOtherlang (hh : HandlerArgs .beginOtherlang args) :
     Post (callHandler T (fuel + 1) .beginOtherlang buf mac args pos st)
       (fun r st' => Good T nroot st st' ∧ BL T st.latex.length r) := by
   simp only [callHandler]
-  refine Post_argBind args 0 _ st _ (fun a0 h0 => ?_)
+  refine Post_argBind args 0 _ st _ (arity_lt hh (by decide)) (fun a0 h0 ea0 => ?_)
   refine Post_bind _ _ _ _ _ (text_step IH (Good_refl T nroot st hg) a0 (ha a0 h0)) (fun l s hs => ?_)
   cases ht : translateLang T (strip l) with
-  | none => exact Post_crash _ _ _
+  | none => exact absurd ht (translateLang_ne_none T hw _)
   | some lt =>
     refine Post_pure _ _ _ ⟨hs, ?_⟩
     simp [BL_cons, BL_nil, BTok_mkLang, hp]
@@ -544,29 +594,34 @@ theorem BL_substackLoop (hw : T.WFInv) (n : Nat) (lev : Int) (ts : List Tok) (h 
     exact ⟨ite_prop (BTok T n) _ _ _ (BTok_mkTok_special T hw n t.pos _ (by simp) h.1.1.1) h.1, ih _ h.2⟩
 
 include hw hg ha in
-theorem handler_substack :
+theorem handler_substack (hh : HandlerArgs .substack args) :
     Post (callHandler T (fuel + 1) .substack buf mac args pos st)
       (fun r st' => Good T nroot st st' ∧ BL T st.latex.length r) := by
   simp only [callHandler]
-  refine Post_argBind args 0 _ st _ (fun a0 h0 => ?_)
+  refine Post_argBind args 0 _ st _ (arity_lt hh (by decide)) (fun a0 h0 ea0 => ?_)
   exact Post_pure _ _ _ ⟨Good_refl T nroot st hg, BL_substackLoop hw _ _ _ (ha a0 h0)⟩
 
 include hg ha hp in
-theorem handler_proof :
+theorem handler_proof (hh : HandlerArgs .proof args) :
     Post (callHandler T (fuel + 1) .proof buf mac args pos st)
       (fun r st' => Good T nroot st st' ∧ BL T st.latex.length r) := by
   simp only [callHandler]
-  refine Post_argBind args 0 _ st _ (fun a0 h0 => ?_)
+  refine Post_argBind args 0 _ st _ (arity_lt hh (by decide)) (fun a0 h0 ea0 => ?_)
   have hA := ha a0 h0
   refine Post_getBind _ st _ ?_
   have hret : BL T st.latex.length (if (!a0.isEmpty) = true then a0
       else [mkFix .text pos (((settingsOf T (curSettings st)).map (·.proofName)).getD [])]) := by
     apply ite_prop (BL T st.latex.length) _ _ _ hA
     simp [BL_cons, BL_nil, BTok_mkFix_text, hp]
+  have hne : (if (!a0.isEmpty) = true then a0
+      else [mkFix .text pos (((settingsOf T (curSettings st)).map (·.proofName)).getD [])]) ≠ [] := by
+    split
+    · rename_i h; intro h'; simp [h'] at h
+    · simp
   generalize (if (!a0.isEmpty) = true then a0
-      else [mkFix .text pos (((settingsOf T (curSettings st)).map (·.proofName)).getD [])]) = ret at hret
+      else [mkFix .text pos (((settingsOf T (curSettings st)).map (·.proofName)).getD [])]) = ret at hret hne
   cases hl : ret.getLast? with
-  | none => exact Post_crash _ _ _
+  | none => exact absurd (List.getLast?_eq_none_iff.mp hl) hne
   | some l =>
     dsimp only
     have hlp := BL_last_pos T hret hl
@@ -588,22 +643,22 @@ theorem handler_xspace :
       simp [BL_cons, BL_nil, BTok_mkTok1_space, hp]
 
 include IH hg ha in
-theorem handler_newacronym :
+theorem handler_newacronym (hh : HandlerArgs .newacronym args) :
     Post (callHandler T (fuel + 1) .newacronym buf mac args pos st)
       (fun r st' => Good T nroot st st' ∧ BL T st.latex.length r) := by
   simp only [callHandler]
-  refine Post_argBind args 2 _ st _ (fun a2 h2 => ?_)
+  refine Post_argBind args 2 _ st _ (arity_lt hh (by decide)) (fun a2 h2 ea2 => ?_)
   exact modDesc_step IH (Good_refl T nroot st hg) a2 (ha a2 h2)
 
 include hw IH hg ha in
-theorem handler_newcommand :
+theorem handler_newcommand (hh : HandlerArgs .newcommand args) :
     Post (callHandler T (fuel + 1) .newcommand buf mac args pos st)
       (fun r st' => Good T nroot st st' ∧ BL T st.latex.length r) := by
   simp only [callHandler]
-  refine Post_argBind args 1 _ st _ (fun a1 h1 => ?_)
-  refine Post_argBind args 2 _ st _ (fun a2 h2 => ?_)
-  refine Post_argBind args 3 _ st _ (fun a3 h3 => ?_)
-  refine Post_argBind args 4 _ st _ (fun a4 h4 => ?_)
+  refine Post_argBind args 1 _ st _ (arity_lt hh (by decide)) (fun a1 h1 ea1 => ?_)
+  refine Post_argBind args 2 _ st _ (arity_lt hh (by decide)) (fun a2 h2 ea2 => ?_)
+  refine Post_argBind args 3 _ st _ (arity_lt hh (by decide)) (fun a3 h3 ea3 => ?_)
+  refine Post_argBind args 4 _ st _ (arity_lt hh (by decide)) (fun a4 h4 ea4 => ?_)
   refine Post_getBind _ st _ ?_
   split
   · exact Post_pure _ _ _ ⟨Good_refl T nroot st hg, BL_nil T _⟩
@@ -619,43 +674,46 @@ theorem handler_newcommand :
       dsimp only
       split
       · split
-        · cases hh : a1.head? with
-          | none => exact Post_crash _ _ _
-          | some t => exact latexError_step T hw hs _ _ (BL_head_pos T (ha a1 h1) hh)
+        · cases hh' : a1.head? with
+          | none => exact absurd (List.head?_eq_none_iff.mp hh') (needsA_ne_nil hh (by simp [handlerNeedsA]) ea1)
+          | some t => exact latexError_step T hw hs _ _ (BL_head_pos T (ha a1 h1) hh')
         · refine Post_modifyPure _ _ _ _ ⟨⟨G_setMacros T hs.1 _ ?_, hs.2⟩, BL_nil T _⟩
-          simp [macroToksOk, BL_all_storedOk T hA3, BL_all_storedOk T hA4]
+          simp only [macroToksOk, BL_all_storedOk T hA3, BL_all_storedOk T hA4, List.all_cons, List.all_nil,
+            Bool.and_true, Bool.true_and]
+          exact arityOk_newcommand _ _ _ _ nargs (by simp; omega) hf
       · refine Post_modifyPure _ _ _ _ ⟨⟨G_setMacros T hs.1 _ ?_, hs.2⟩, BL_nil T _⟩
-        simp [macroToksOk, BL_all_storedOk T hA4]
+        simp only [macroToksOk, BL_all_storedOk T hA4, List.all_nil, Bool.and_true, Bool.true_and]
+        exact arityOk_newcommand _ _ _ _ nargs (by simp) hf
 
 include IH hg ha in
-theorem handler_newtheorem :
+theorem handler_newtheorem (hh : HandlerArgs .newtheorem args) :
     Post (callHandler T (fuel + 1) .newtheorem buf mac args pos st)
       (fun r st' => Good T nroot st st' ∧ BL T st.latex.length r) := by
   simp only [callHandler]
-  refine Post_argBind args 0 _ st _ (fun a0 h0 => ?_)
-  refine Post_argBind args 2 _ st _ (fun a2 h2 => ?_)
+  refine Post_argBind args 0 _ st _ (arity_lt hh (by decide)) (fun a0 h0 ea0 => ?_)
+  refine Post_argBind args 2 _ st _ (arity_lt hh (by decide)) (fun a2 h2 ea2 => ?_)
   refine Post_bind _ _ _ _ _ (text_step IH (Good_refl T nroot st hg) a0 (ha a0 h0)) (fun name s hs => ?_)
   refine Post_bind _ _ _ _ _ (text_step IH hs a2 (ha a2 h2)) (fun title s' hs' => ?_)
   refine Post_modifyPure _ _ _ _ ⟨⟨G_setEnvs T hs'.1 _ ?_ ?_, hs'.2⟩, BL_nil T _⟩
-  · simp [macroToksOk]
-  · simp [envOk]
+  · simp [macroToksOk, arityOk, handlerArity, handlerNeedsA]
+  · simp [envOk, handlerArity]
 
 include hg ha hp in
-theorem handler_bibCite :
+theorem handler_bibCite (hh : HandlerArgs .bibCite args) :
     Post (callHandler T (fuel + 1) .bibCite buf mac args pos st)
       (fun r st' => Good T nroot st st' ∧ BL T st.latex.length r) := by
   simp only [callHandler]
   cases h : bibCite T args pos with
-  | none => exact Post_crash _ _ _
+  | none => exact absurd h (bibCite_ne_none T args pos hh.1)
   | some o => exact Post_pure _ _ _ ⟨Good_refl T nroot st hg, BL_bibCite T _ args pos o ha hp h⟩
 
 include hw hg ha hp in
-theorem handler_footcite :
+theorem handler_footcite (hh : HandlerArgs .footcite args) :
     Post (callHandler T (fuel + 1) .footcite buf mac args pos st)
       (fun r st' => Good T nroot st st' ∧ BL T st.latex.length r) := by
   simp only [callHandler]
   cases h : bibCite T args pos with
-  | none => exact Post_crash _ _ _
+  | none => exact absurd h (bibCite_ne_none T args pos hh.1)
   | some o =>
     dsimp only
     have ho := BL_bibCite T _ args pos o ha hp h
@@ -666,11 +724,11 @@ theorem handler_footcite :
       BTok_mkTok_special T hw, hp, hlp, ho]
 
 include hw IH hg ha hp in
-theorem handler_gls (key : Str) (cf ca : Bool) :
+theorem handler_gls (key : Str) (cf ca : Bool) (hh : HandlerArgs (.gls key cf ca) args) :
     Post (callHandler T (fuel + 1) (.gls key cf ca) buf mac args pos st)
       (fun r st' => Good T nroot st st' ∧ BL T st.latex.length r) := by
   simp only [callHandler]
-  refine Post_argBind args 1 _ st _ (fun a1 h1 => ?_)
+  refine Post_argBind args 1 _ st _ (arity_lt hh (by simp [handlerArity])) (fun a1 h1 ea1 => ?_)
   refine Post_bind _ _ _ _ _ (text_step IH (Good_refl T nroot st hg) a1 (ha a1 h1)) (fun label s hs => ?_)
   refine Post_getBind _ s _ ?_
   generalize he : Option.bind (List.find? _ s.glossary) _ = entry
@@ -682,7 +740,7 @@ theorem handler_gls (key : Str) (cf ca : Bool) :
     have hst := gloss_lookup T hs.1.gloss he
     generalize hc : (if cf = true then capFirst T toks else some toks) = c
     cases c with
-    | none => exact Post_crash _ _ _
+    | none => exact Post_crash _ _ _ (by simp [allowedCrash])
     | some t1 =>
       dsimp only
       have h1 : ∀ t ∈ t1, storedOk T t = true := by
@@ -693,21 +751,21 @@ theorem handler_gls (key : Str) (cf ca : Bool) :
       exact ite_prop (fun l => ∀ t ∈ l, storedOk T t = true) _ _ _ (capAll_storedOk T h1) h1
 
 include IH hg ha in
-theorem handler_newglossaryentry :
+theorem handler_newglossaryentry (hh : HandlerArgs .newglossaryentry args) :
     Post (callHandler T (fuel + 1) .newglossaryentry buf mac args pos st)
       (fun r st' => Good T nroot st st' ∧ BL T st.latex.length r) := by
   simp only [callHandler]
-  refine Post_argBind args 1 _ st _ (fun a1 h1 => ?_)
+  refine Post_argBind args 1 _ st _ (arity_lt hh (by decide)) (fun a1 h1 ea1 => ?_)
   refine Post_bind _ _ _ _ _ (keyvals_step IH (Good_refl T nroot st hg) a1 (ha a1 h1)) (fun kv s hs => ?_)
   exact modDesc_step IH hs.1 _ (kvOk_description T hs.2 _)
 
 include IH hg ha in
-theorem handler_parseGlsdefs :
+theorem handler_parseGlsdefs (hh : HandlerArgs .parseGlsdefs args) :
     Post (callHandler T (fuel + 1) .parseGlsdefs buf mac args pos st)
       (fun r st' => Good T nroot st st' ∧ BL T st.latex.length r) := by
   simp only [callHandler]
-  refine Post_argBind args 0 _ st _ (fun a0 h0 => ?_)
-  refine Post_argBind args 1 _ st _ (fun a1 h1 => ?_)
+  refine Post_argBind args 0 _ st _ (arity_lt hh (by decide)) (fun a0 h0 ea0 => ?_)
+  refine Post_argBind args 1 _ st _ (arity_lt hh (by decide)) (fun a1 h1 ea1 => ?_)
   refine Post_bind _ _ _ _ _ (text_step IH (Good_refl T nroot st hg) a0 (ha a0 h0)) (fun label s hs => ?_)
   refine Post_bind _ _ _ _ _ (keyvals_step IH hs a1 (ha a1 h1)) (fun kv s' hs' => ?_)
   refine Post_modifyPure _ _ _ _ ⟨⟨G_setGloss T hs'.1.1 _ _ ?_, hs'.1.2⟩, BL_nil T _⟩
@@ -717,14 +775,14 @@ theorem handler_parseGlsdefs :
   · exact BTok_storedOk T _ t (hs'.2 e h ts hts t ht)
 
 include hw IH hg ha hp in
-theorem handler_loadDefs :
+theorem handler_loadDefs (hh : HandlerArgs .loadDefs args) :
     Post (callHandler T (fuel + 1) .loadDefs buf mac args pos st)
       (fun r st' => Good T nroot st st' ∧ BL T st.latex.length r) := by
   simp only [callHandler]
   refine Post_getBind _ st _ ?_
   split
   · exact Post_pure _ _ _ ⟨Good_refl T nroot st hg, BL_nil T _⟩
-  · refine Post_argBind args 0 _ st _ (fun a0 h0 => ?_)
+  · refine Post_argBind args 0 _ st _ (arity_lt hh (by decide)) (fun a0 h0 ea0 => ?_)
     refine Post_bind _ _ _ _ _ (text_step IH (Good_refl T nroot st hg) a0 (ha a0 h0)) (fun file s hs => ?_)
     refine Post_getBind _ s _ ?_
     cases hf : List.find? (fun x => x.fst == file) s.fs with
@@ -734,7 +792,8 @@ theorem handler_loadDefs :
       refine Post_bind _ _ _ (fun _ s1 => s1 = { s with extracted := [] }) _ (Post_modify _ _ _ rfl) ?_
       rintro _ s1 rfl
       have hG0 : G0 T nroot { s with extracted := [] } :=
-        { flows := fun _ e he => (by cases he), macros := hs.1.macros, envs := hs.1.envs, gloss := hs.1.gloss }
+        { flows := fun _ e he => (by cases he), macros := hs.1.macros, envs := hs.1.envs, gloss := hs.1.gloss,
+          items := hs.1.items, langs := hs.1.langs, rots := hs.1.rots }
       refine Post_bind _ _ _ _ _ (IH.work f.2 _ hG0 (fun h => absurd h hs.1.inFrame) hs.1.root)
         (fun toks s2 h2 => ?_)
       obtain ⟨hG2, hSame, hOL⟩ := h2
@@ -742,7 +801,7 @@ theorem handler_loadDefs :
       · have e1 : s2.nest = s.nest := hSame.2
         have e2 : s2.latex = s.latex := hSame.1
         refine { flows := hs.1.flows, macros := hG2.macros, envs := hG2.envs, gloss := hG2.gloss,
-                 root := ?_, inFrame := ?_ }
+                 items := hG2.items, langs := hG2.langs, rots := hG2.rots, root := ?_, inFrame := ?_ }
         · intro h
           show s2.latex.length = nroot
           rw [e2]; exact hs.1.root (e1 ▸ h)
@@ -753,12 +812,12 @@ theorem handler_loadDefs :
       · exact BL_filterSetToks_lang T _ _ pos toks hp hOL
 
 include hw IH hg ha hp in
-theorem handler_loadModule (cls : Bool) :
+theorem handler_loadModule (cls : Bool) (hh : HandlerArgs (.loadModule cls) args) :
     Post (callHandler T (fuel + 1) (.loadModule cls) buf mac args pos st)
       (fun r st' => Good T nroot st st' ∧ BL T st.latex.length r) := by
   simp only [callHandler]
-  refine Post_argBind args 0 _ st _ (fun a0 h0 => ?_)
-  refine Post_argBind args 1 _ st _ (fun a1 h1 => ?_)
+  refine Post_argBind args 0 _ st _ (arity_lt hh (by simp [handlerArity])) (fun a0 h0 ea0 => ?_)
+  refine Post_argBind args 1 _ st _ (arity_lt hh (by simp [handlerArity])) (fun a1 h1 ea1 => ?_)
   refine Post_bind _ _ _ _ _ (keyvals_step IH (Good_refl T nroot st hg) a0 (ha a0 h0)) (fun kv s hs => ?_)
   refine Post_bind _ _ _ _ _ (expandKv_step IH hs.1 kv hs.2) (fun options s2 hs2 => ?_)
   refine Post_bind _ _ _ _ _ (text_step IH hs2 a1 (ha a1 h1)) (fun packs s3 hs3 => ?_)
@@ -773,32 +832,32 @@ end HandlerStep
 open HandlerStep in
 theorem handler_step (hw : T.WFInv) (nroot fuel : Nat) (IH : AllSpecs T nroot fuel) :
     SpecHandler T nroot (fuel + 1) := by
-  intro h buf mac args pos st hg _hb ha hp
+  intro h buf mac args pos st hg _hb ha hp hh
   cases h with
   | none => exact handler_none buf mac args pos st hg
-  | newcommand => exact handler_newcommand hw IH buf mac args pos st hg ha
-  | newtheorem => exact handler_newtheorem IH buf mac args pos st hg ha
-  | «theorem» title => exact handler_theorem buf mac args pos st hg ha hp title
-  | heading => exact handler_heading IH buf mac args pos st hg ha
-  | phantom => exact handler_phantom hw IH buf mac args pos st hg ha hp
-  | hspace => exact handler_hspace IH buf mac args pos st hg ha hp
-  | cite => exact handler_cite buf mac args pos st hg ha hp
-  | loadDefs => exact handler_loadDefs hw IH buf mac args pos st hg ha hp
-  | loadModule cls => exact handler_loadModule hw IH buf mac args pos st hg ha hp cls
-  | foreignlanguage => exact handler_foreignlanguage IH buf mac args pos st hg ha hp
-  | selectlanguage => exact handler_selectlanguage IH buf mac args pos st hg ha hp
-  | beginOtherlang => exact handler_beginOtherlang IH buf mac args pos st hg ha hp
+  | newcommand => exact handler_newcommand hw IH buf mac args pos st hg ha hh
+  | newtheorem => exact handler_newtheorem IH buf mac args pos st hg ha hh
+  | «theorem» title => exact handler_theorem buf mac args pos st hg ha hp title hh
+  | heading => exact handler_heading IH buf mac args pos st hg ha hh
+  | phantom => exact handler_phantom hw IH buf mac args pos st hg ha hp hh
+  | hspace => exact handler_hspace IH buf mac args pos st hg ha hp hh
+  | cite => exact handler_cite buf mac args pos st hg ha hp hh
+  | loadDefs => exact handler_loadDefs hw IH buf mac args pos st hg ha hp hh
+  | loadModule cls => exact handler_loadModule hw IH buf mac args pos st hg ha hp cls hh
+  | foreignlanguage => exact handler_foreignlanguage hw IH buf mac args pos st hg ha hp hh
+  | selectlanguage => exact handler_selectlanguage hw IH buf mac args pos st hg ha hp hh
+  | beginOtherlang => exact handler_beginOtherlang hw IH buf mac args pos st hg ha hp hh
   | endOtherlang => exact handler_endOtherlang buf mac args pos st hg hp
   | endOtherlangStar => exact handler_endOtherlangStar buf mac args pos st hg hp
-  | substack => exact handler_substack hw buf mac args pos st hg ha
-  | proof => exact handler_proof buf mac args pos st hg ha hp
-  | bibCite => exact handler_bibCite buf mac args pos st hg ha hp
-  | footcite => exact handler_footcite hw buf mac args pos st hg ha hp
+  | substack => exact handler_substack hw buf mac args pos st hg ha hh
+  | proof => exact handler_proof buf mac args pos st hg ha hp hh
+  | bibCite => exact handler_bibCite buf mac args pos st hg ha hp hh
+  | footcite => exact handler_footcite hw buf mac args pos st hg ha hp hh
   | xspace => exact handler_xspace buf mac args pos st hg hp
-  | gls key cf ca => exact handler_gls hw IH buf mac args pos st hg ha hp key cf ca
-  | newacronym => exact handler_newacronym IH buf mac args pos st hg ha
-  | newglossaryentry => exact handler_newglossaryentry IH buf mac args pos st hg ha
-  | parseGlsdefs => exact handler_parseGlsdefs IH buf mac args pos st hg ha
+  | gls key cf ca => exact handler_gls hw IH buf mac args pos st hg ha hp key cf ca hh
+  | newacronym => exact handler_newacronym IH buf mac args pos st hg ha hh
+  | newglossaryentry => exact handler_newglossaryentry IH buf mac args pos st hg ha hh
+  | parseGlsdefs => exact handler_parseGlsdefs IH buf mac args pos st hg ha hh
   | opaqueH name => exact handler_opaqueH buf mac args pos st name
 
 end Yalafi
